@@ -1011,7 +1011,10 @@ pub fn selfcheck_main(
             mism,
             n as usize - a.len().min(n as usize)
         );
-        if mism > 0 || a.len() as u64 != n || b.len() as u64 != n {
+        // a seed may be missing when its run kills the process (outside the claim for some
+        // engines); that, too, must be the same in all three configurations
+        let same_missing = a.keys().eq(b.keys()) && a.keys().eq(c.keys());
+        if mism > 0 || !same_missing {
             bad += 1;
         }
     }
